@@ -19,7 +19,7 @@ def _ov(extra):
 
 
 _KF = {1: "C19-F1", 2: "C19-F2", 3: "C19-F3", 4: "C19-F4", 5: "C19-F5", 6: "C19-F6", 7: "C19-F7", 8: "C19-F8"}
-_KS = _ov({"internal/zzverif/c19gen/ks_test.go": "c19/gen/ks_test.go"})
+_KS = _ov({"internal/zzverif/c19gen/ks_test.go": "c19/gen/ks_test.go", "internal/zzverif/c19gen/req_test.go": "c19/gen/req_test.go"})
 
 P = {
     "id": "C19",
@@ -39,6 +39,10 @@ P = {
         "name": "truststore", "pkg": "./internal/zzverif/c19gen", "test": "TestVerifC19TS", "overlay": _KS,
         "eval_module": "Run.Eval_C19", "check_term": "check_ts " + _FX,
         "n_quick": 150, "n_thorough": 4000, "findings": _KF, "env": _ENV,
+    }, {
+        "name": "request", "pkg": "./internal/zzverif/c19gen", "test": "TestVerifC19Req", "overlay": _KS,
+        "eval_module": "Run.Eval_C19", "check_term": "check_req " + _FX,
+        "n_quick": 60, "n_thorough": 1000, "findings": _KF, "env": _ENV,
     }, {
         "name": "signer", "pkg": "./internal/rules/mechanisms/finalizers", "test": "TestVerifC19Signer",
         "overlay": _ov({"internal/rules/mechanisms/finalizers/zz_verif_c19_test.go": "c19/signer_test.go"}),
